@@ -77,6 +77,11 @@ def dictGet {κ ν} [DecidableEq κ] : List (κ × ν) → κ → Except Err ν
   | [], _ => .error .other                     -- KeyError
   | (k', v) :: r, k => if k' = k then .ok v else dictGet r k
 
+/-- `d.get(k)` -/
+def dictGet? {κ ν} [DecidableEq κ] : List (κ × ν) → κ → Option ν
+  | [], _ => none
+  | (k', v) :: r, k => if k' = k then some v else dictGet? r k
+
 /-- `d[k] = v`: an existing key keeps its position -/
 def dictSet {κ ν} [DecidableEq κ] : List (κ × ν) → κ → ν → List (κ × ν)
   | [], k, v => [(k, v)]
